@@ -22,6 +22,20 @@ CHECKS = {
     ),
 }
 
+CHECKS["C07"] = dict(
+    category="proof",
+    text=("17 Lean theorems about the storage kernels that py2lean regenerates from ixai/storage/*.py on every run, for every "
+          "update sequence, capacity, store_targets flag and every value of every random draw (uninterpreted exp/log/floor): "
+          "stored instances are the images of a duplicate-free list of arrival positions (sub-multiset of the stream), the "
+          "same positions index the stored targets (alignment), length = min(seen, capacity); Batch/Interval/Sequence hold "
+          "exactly the whole stream / the last `size` / the last one in arrival order. Tie: generated kernels vs real classes "
+          "under identical scripted draws, plus the invariant evaluated on the real classes."),
+    design_ref="DESIGN.md section 6, C07",
+    note=("Trusted: Lean kernel; axioms propext/Classical.choice/Quot.sound; py2lean + schema (differentially validated each run); "
+          "Python list/deque semantics as modelled by List (append, popleft = tail, item assignment = set); capacity >= 1."),
+    technique="Lean 4 theorems over kernels regenerated from source + translation validation",
+)
+
 NOT_YET = {
 }
 
